@@ -20,6 +20,9 @@ CONSTANTS Slack, Budget
 Trace == ndJsonDeserialize(IOEnv.TRACE_FILE)
 VARIABLES l, base, bad, stats
 vars == <<l, base, bad, stats>>
+\* The monitor is a deterministic chain, one state per consumed event: fingerprinting the position alone (cfg: VIEW TraceView)
+\* keeps validation linear however large `bad`, the references or the block grow.
+TraceView == l
 
 Put(f, k, v) == [x \in DOMAIN f \cup {k} |-> IF x = k THEN v ELSE f[x]]
 
